@@ -649,8 +649,11 @@ def check_C14(tier, seed):
                 dict(what="states within 1 call, medium lattice, with probe tables", cfg="Battery_lawsgen",
                      overrides={"K": K, "Bats": "<- BatsMidQuiet"}),
                 dict(what="states within 2 calls, small continuous lattice, with probe tables", cfg="Battery_lawsgen",
-                     overrides={"K": K, "Bats": "<- BatsContSmallQuiet", "MaxOps": "= 2", "Durs": "= {2}"})]
-        ngen = 2
+                     overrides={"K": K, "Bats": "<- BatsContSmallQuiet", "MaxOps": "= 2", "Durs": "= {2}"}),
+                dict(what="tiny pilots (a few 1e-7 of the capacity per period), with probe tables", cfg="Battery_lawsgen",
+                     overrides={"K": "= 32", "Bats": "<- BatsContSmallQuiet", "Pilots": "<- PilotsTiny", "Durs": "= {1}",
+                                "ProbeDurs": "= {1}"})]
+        ngen = 3
     else:
         jobs = [dict(mc=1, w=3, what="law theorems, ideal+stepwise full lattice, every state within 2 calls: " + thm, cfg="Battery_laws",
                      overrides={"K": K, "Bats": "<- BatsExactQuiet", "Pilots": "<- PilotsAll"}),
@@ -662,8 +665,11 @@ def check_C14(tier, seed):
                 dict(w=3, what="states within 2 calls, medium lattice, with probe tables", cfg="Battery_lawsgen",
                      overrides={"K": K, "Bats": "<- BatsMidQuiet", "MaxOps": "= 2"}),
                 dict(w=2, what="states within 3 calls, small continuous lattice, with probe tables", cfg="Battery_lawsgen",
-                     overrides={"K": K, "Bats": "<- BatsContSmallQuiet", "MaxOps": "= 3", "Durs": "= {2}"})]
-        ngen = 3
+                     overrides={"K": K, "Bats": "<- BatsContSmallQuiet", "MaxOps": "= 3", "Durs": "= {2}"}),
+                dict(w=1, what="tiny pilots (a few 1e-7 of the capacity per period), with probe tables", cfg="Battery_lawsgen",
+                     overrides={"K": "= 32", "Bats": "<- BatsContSmallQuiet", "Pilots": "<- PilotsTiny", "Durs": "= {1}",
+                                "ProbeDurs": "= {1}"})]
+        ngen = 4
     res = _tlc_jobs(rep, jobs)
     bh = [b for r in res[-ngen:] for b in r.emitted.get("BHV", [])]
     _selftest_replay(rep, bh, True)
